@@ -919,6 +919,47 @@ __CPROVER_assigns(g_cpos, g_cset_id, g_cset_dim, g_cset_calls, g_wc_push, __CPRO
                   harness=H("  dentry in_s; in_s.diam = nondet_float(); in_s.id = nondet_ulong(); dimension_t in_dim = (dimension_t)nondet_int(); g_cset_calls = 0; g_wc_push = 0; g_wr_push = 0;", "add_simplex_coboundary(in_s, in_dim);"),
                   desc="add_simplex_coboundary: the simplex goes to the working reduction column and every cofacet its enumerator yields goes to the working coboundary"))
 
+def add_coboundary_units(U):
+    """add_coboundary: the column being added is its own simplex with coefficient `factor`, followed by every simplex stored
+    for it in the reduction matrix with its coefficient multiplied by `factor` modulo the characteristic."""
+    KS = 3
+    G = ND + f"""
+typedef float value_t; typedef signed char dimension_t; typedef unsigned long simplex_t; typedef unsigned int coefficient_t;
+#define KS {KS}
+typedef struct {{ value_t diam; simplex_t id; coefficient_t coef; }} dentry;          /* diameter_entry_t with its coefficient */
+typedef struct {{ value_t diameter; simplex_t index; }} diameter_simplex_t;
+coefficient_t modulus; diameter_simplex_t g_col; dentry g_stored[KS]; unsigned g_nstored;
+unsigned g_asc_calls; simplex_t g_asc_id[KS + 1]; coefficient_t g_asc_coef[KS + 1]; dimension_t g_asc_dim[KS + 1];
+static dentry make_entry(diameter_simplex_t s, coefficient_t c) {{ dentry e; e.diam = s.diameter; e.id = s.index; e.coef = c; return e; }}
+static void asc_stub(dentry s, dimension_t d) {{ if (g_asc_calls < KS + 1) {{ g_asc_id[g_asc_calls] = s.id; g_asc_coef[g_asc_calls] = s.coef; g_asc_dim[g_asc_calls] = d; }} g_asc_calls++; }}
+static bool x_rest(coefficient_t factor, dimension_t dim) {{ bool ok = true; for (unsigned k = 0; k < KS; k++) if (k < g_nstored) ok = ok && g_asc_id[k + 1] == g_stored[k].id && g_asc_coef[k + 1] == g_stored[k].coef * factor % modulus && g_asc_dim[k + 1] == dim; return ok; }}
+static bool x_nowrap(coefficient_t factor) {{ bool ok = true; for (unsigned k = 0; k < KS; k++) ok = ok && (unsigned long)g_stored[k].coef * (unsigned long)factor <= 4294967295ul; return ok; }}
+"""
+    con = """
+__CPROVER_requires(g_nstored <= KS && g_asc_calls == 0 && modulus >= 2 && modulus <= 65521 && factor >= 1 && factor < modulus)
+__CPROVER_requires(g_stored[0].coef < modulus && g_stored[1].coef < modulus && g_stored[2].coef < modulus)
+__CPROVER_ensures(g_asc_calls == g_nstored + 1 && g_asc_id[0] == g_col.index && g_asc_coef[0] == factor && g_asc_dim[0] == dim)
+__CPROVER_ensures(x_rest(factor, dim))
+__CPROVER_ensures(x_nowrap(factor))
+__CPROVER_assigns(g_asc_calls, __CPROVER_object_whole(g_asc_id), __CPROVER_object_whole(g_asc_coef), __CPROVER_object_whole(g_asc_dim))
+"""
+    fn = Fn(RP, r"void add_coboundary\(Compressed_sparse_matrix& reduction_matrix,\s*const std::vector<diameter_simplex_t>& columns_to_reduce,\s*const size_t index_column_to_add, const coefficient_t factor,\s*const dimension_t dim, Column& working_reduction_column,\s*Column& working_coboundary\)",
+            "add_coboundary", con,
+            sig_subs=[(r"\(Compressed_sparse_matrix& reduction_matrix,.*\)$", "(size_t index_column_to_add, coefficient_t factor, dimension_t dim)")],
+            subs=[(r"\bdiameter_entry_t\b", "dentry"), (r"filt\.make_diameter_entry\(columns_to_reduce\[index_column_to_add\], (\w+)\)", r"make_entry(g_col, \1)"),
+                  (r"add_simplex_coboundary\((\w+), (\w+), working_reduction_column, working_coboundary\);", r"asc_stub(\1, \2);"),
+                  (r"for \(dentry (\w+) : reduction_matrix\.subrange\(index_column_to_add\)\) \{", r"for (unsigned vp_k = 0; vp_k < g_nstored; vp_k++) { dentry \1 = g_stored[vp_k];"),
+                  (r"filt\.set_coefficient\((\w+), filt\.get_coefficient\(\1\) \* factor % modulus\);", r"\1.coef = \1.coef * factor % modulus;")],
+            canary=(r"\* factor % modulus", "* factor"))
+    U.append(Unit("reduction.add_coboundary", "C11", [fn], enforce="add_coboundary", globals_=G, unwind=KS + 2, route="B",
+                  bound=f"at most {KS} simplices stored for the added column; moduli up to 65521 (the product of two coefficients fits 32 bits)", inputs=["in_i", "in_f", "in_dim", "modulus", "g_nstored"],
+                  replay=replay_by_native_search,
+                  runs=[Run(only=["*.postcondition.2"], backend="z3", timeout=300, label="value"), Run(only=["*.postcondition.3"], backend="kissat", timeout=300, label="no-wrap"),
+                        Run(exclude=["*.postcondition.2", "*.postcondition.3"], backend="sat", timeout=300, label="rest")],
+                  harness=H("  size_t in_i = nondet_ulong(); coefficient_t in_f = nondet_uint(); dimension_t in_dim = (dimension_t)nondet_int(); modulus = nondet_uint(); g_nstored = nondet_uint(); g_asc_calls = 0;\n"
+                            "  for (int k = 0; k < KS; k++) { g_stored[k].id = nondet_ulong(); g_stored[k].coef = nondet_uint(); }", "add_coboundary(in_i, in_f, in_dim);"),
+                  desc="add_coboundary: adds the coboundary of the added column's own simplex with coefficient `factor`, then of every simplex stored for that column with its coefficient times `factor` reduced modulo the characteristic (no 32-bit wrap for moduli below 2^16)"))
+
 def enumerator_units(U):
     """dense Simplex_coboundary_enumerator_::next(): filters the raw cofacets by the threshold.  next_raw (the
     enumeration itself) is a ghost stub that yields an arbitrary finite sequence of candidates."""
@@ -1186,6 +1227,7 @@ def units(tier):
     barcodes_units(U)
     pairs_step_units(U)
     emergent_units(U)
+    add_coboundary_units(U)
     return U
 
 
